@@ -370,6 +370,12 @@ def r3_globals_cleared(ctx):
                 return False
             mod_reset = mod_reset and swaps_modctx(md)
         ctx.check(mod_reset, 'guard-drop-modctx', 'dropping the simulation statics guard clears the global module context', g.where())
+        # ... on every way out of a simulation, also while unwinding: both releases are unconditional
+        rel = list(g.calls_to('des::net::runtime::ctx::buf_drop')) + list(g.calls_to('des::net::module::ctx::module_ctx_drop'))
+        cond = [(c, [a for _, a in g.guard_atoms(c.b) if a and a[0] in ('bool', 'cmp')]) for c in rel]
+        cond = [(c, ga) for c, ga in cond if ga or not g.postdominates_entry(c.b)]
+        ctx.check(not cond, 'guard-drop-unconditional', 'the statics guard releases the global buffer and module context on every path of its Drop (also during a panic unwind)',
+                  cond[0][0].where() if cond else g.where(), [show_atom(a) for _, ga in cond for a in ga][:3])
     # clearing the global module context drops the context that was stored there
     sw = P.fns.get('des_net_utils::sync::swaplock::SwapLock::reset')
     if sw is not None:
@@ -418,3 +424,7 @@ def run(ctx):
     # the buckets are emptied before the allocator goes (shared with C15.R5) — an event holds its message body and a strong module reference
     from .C15 import r5_drain_before_allocator
     r5_drain_before_allocator(ctx, rule='C20.R5')
+    # (R6) a message that is released releases its body: the drop thunk installed for T drops the boxed T whenever the pointer is
+    # non-null, with no other condition (shared with C16.R2)
+    from .C16 import r2_vtables
+    r2_vtables(ctx, rule='C20.R6')
